@@ -1,0 +1,24 @@
+//go:build verif
+
+package jpeg
+
+import (
+	"bufio"
+	"bytes"
+	"sync"
+)
+
+// VerifResetPools replaces the bufio.Reader pool by a fresh one (quiescent points only).
+func VerifResetPools() {
+	bufferPool = sync.Pool{New: func() interface{} { return bufio.NewReaderSize(nil, bufferSize) }}
+}
+
+// VerifPoisonPools makes the pool hand out readers whose internal buffer is pre-filled with
+// fill, as if left over from reading another stream.
+func VerifPoisonPools(fill byte) {
+	bufferPool = sync.Pool{New: func() interface{} {
+		br := bufio.NewReaderSize(bytes.NewReader(bytes.Repeat([]byte{fill}, bufferSize)), bufferSize)
+		_, _ = br.Peek(bufferSize)
+		return br
+	}}
+}
